@@ -6,7 +6,9 @@ from . import common, models
 from .c08 import unproxy
 
 LAYOUTS = [('a', 'b', 'c'), ('d1/a', 'd1/b', 'd1/c'), ('d1/a', 'd2/b', 'c'), ('d1/x/a', 'd2/b', 'd1/c'), ('a', 'd1/d2/d3/b', 'd1/c'),
-           ('d1/m', 'd2/m', 'd3/m')]
+           ('d1/m', 'd2/m', 'd3/m'),
+           # directory and file names are free text: blanks
+           ('a', 'my dir/b', 'my dir/other  dir/c'), ('my models/a 1', 'b', 'my models/c 2')]
 
 
 def _refs(o):
@@ -395,7 +397,7 @@ def path_correspondence(ctx):
 def run(ctx):
     common.use_repo()
     n = 200 if ctx.quick() else 4000
-    ctx.rule = (f'{n} worlds: 2-3 generated models over one metamodel, each in its own file under 6 directory layouts (same dir, '
+    ctx.rule = (f'{n} worlds: 2-3 generated models over one metamodel, each in its own file under 8 directory layouts (two of them with blanks in directory and file names) (same dir, '
                 'sibling dirs, nested up to depth 3, same file name in different dirs), XMI and JSON, with references across them '
                 '(single, many, mixed with local targets, with and without opposites), each file with or without uuids; all saved, one reloaded in a fresh resource set, '
                 'every reference followed, then the other files navigated directly: same target (resource, position), ==, hash, '
